@@ -117,6 +117,7 @@ func c05WholeOnce(t *testing.T, s *sim.Scn, k int, o *sim.Outcome) (fired bool) 
 			return
 		}
 		full.up = false
+		full.closeHost()
 		restoreDir(full.sn.Root, files)
 		onDisk := full.sn.Height()
 		fail := func(oracle, obs, exp string) {
@@ -165,6 +166,7 @@ func c05WholeOnce(t *testing.T, s *sim.Scn, k int, o *sim.Outcome) (fired bool) 
 				break
 			}
 			full.up = false
+			full.closeHost()
 			full.sn.Fence.Kill()
 			lastErr = full.err
 			if lastErr != nil && strings.Contains(lastErr.Error(), "error while starting") {
